@@ -225,6 +225,17 @@ SecondNbr(S, g, n, r1, c1, r2, c2) ==
                         /\ k # n}
          IN  OkR(S, [k |-> "pairs", pairs |-> prs, n |-> Cardinality(prs)])
 
+\* Named deviation (known finding): the second-hop relation filter collects the first-hop node instead of the
+\* second-hop node in its drop list, so the second relation is ignored - except that a first-hop node with a
+\* self-loop is removed from its own second-hop set as soon as any of its edges has another relation.
+AnyNbr(S, g, n) == {x \in Nids(S, g) : EK(g, n, x) \in EKeys(S)}
+SecondNbrAsImplemented(S, g, n, r1, c1, r2, c2) ==
+    {<<m, k>> \in Nids(S, g) \X Nids(S, g) :
+        /\ m \in FirstNbrSet(S, g, n, r1, c1)
+        /\ k \in AnyNbr(S, g, m) /\ S.n[<<g, k>>].cls = c2
+        /\ k # n
+        /\ ~(k = m /\ \E x \in AnyNbr(S, g, m) : S.e[EK(g, m, x)].cls # r2)}
+
 \* --- path queries (C06).  rel = "" means any relation.
 Adj(S, g, rel, x, y) ==
     /\ EK(g, x, y) \in EKeys(S)
